@@ -62,7 +62,7 @@ def reference(stream_s, adj_key, adj):
 
 
 def diff(a, b):
-    for key in ("calls", "responses", "closed", "problem", "handle_errors", "exception"):
+    for key in ("calls", "responses", "closed", "problem", "handle_errors", "exception", "spin"):
         if a[key] != b[key]:
             if key in ("calls", "responses"):
                 if len(a[key]) != len(b[key]):
